@@ -4,9 +4,34 @@ by scenario tag (also clauses of other properties, which the check itself only c
 usage: dbgfam.py <C01|C06|C09|C10|C13|C14|C17|C18|C20> [tag ...]"""
 import sys, json, collections, os
 sys.path.insert(0, os.path.dirname(os.path.abspath(__file__)))
-import vlib, srvprop, srvfam
+import vlib, srvprop, srvfam, cliprop
+
+def main_cli():
+    pid = sys.argv[2].upper()
+    ctx = vlib.Ctx('DBG', 'quick', int(os.environ.get('VERIF_SEED', '1')))
+    scen = (cliprop.FAM[pid]['extra'] if pid in cliprop.FAM else cliprop.EXTRA_ONLY[pid][0])(ctx, False)
+    if len(sys.argv) > 3:
+        scen = [s for s in scen if s['tag'] in sys.argv[3:]]
+    for i, s in enumerate(scen):
+        s['id'] = i + 1
+    tr, _ = cliprop.run_harness(ctx, scen, 'dbg')
+    bad = cliprop.judge(ctx, scen, tr, set(), confirm=False)
+    byid = {s['id']: s for s in scen}
+    cnt, ex = collections.Counter(), {}
+    for t, cl in bad.items():
+        for c in cl:
+            key = (byid[t]['tag'], c.split(' ')[0])
+            cnt[key] += 1
+            ex.setdefault(key, []).append((t, c))
+    for k, v in sorted(cnt.items()):
+        print(k, v, '   e.g.', ex[k][0][1][:200])
+    json.dump({'%s|%s' % k: [{'kind': 'cli', 'clause': c, 'scenario': byid[t], 'property': pid} for t, c in v[:4]] for k, v in ex.items()}, open('/tmp/dbgfam.json', 'w'))
+    print('%d scenarios, %d with clauses; examples in /tmp/dbgfam.json' % (len(scen), len(bad)))
+
 
 def main():
+    if sys.argv[1] == 'cli':
+        return main_cli()
     pid = sys.argv[1].upper()
     ctx = vlib.Ctx('DBG', 'quick', int(os.environ.get('VERIF_SEED', '1')))
     scen = srvprop.FAM[pid]['extra'](ctx, False) if srvprop.FAM[pid].get('extra') else []
